@@ -13,7 +13,8 @@ CONSTANTS
   NodeIdsOf,    \* [group -> set of potential nodes]
   CfgOf,        \* [group -> cfg]
   DryAll,
-  AsgMax0, AsgMinOf, KC, KM, MaxPend,
+  AsgMax0, AsgMinOf, AsgMaxOf,   \* cloud bounds: per-group minimum and maximum (AsgMax0: bound used by environment actions)
+  KC, KM, MaxPend,
   EnvOn, FaultOps, MaxFaults,
   InitNodes,    \* nodes present initially, per group
   PropIds, EmitRate
@@ -46,7 +47,7 @@ Init ==
   /\ api = [g \in GSet |-> [n \in first(g) |-> FreshNode(0)]]
   /\ run = [n \in AllNodes |-> 0]
   /\ pend = [g \in GSet |-> 0]
-  /\ asg = [g \in GSet |-> [min |-> AsgMinOf[g], max |-> AsgMax0, desired |-> InitNodes, members |-> first(g), terminating |-> {}, linger |-> FALSE]]
+  /\ asg = [g \in GSet |-> [min |-> AsgMinOf[g], max |-> AsgMaxOf[g], desired |-> InitNodes, members |-> first(g), terminating |-> {}, linger |-> FALSE]]
   /\ pc = asg
   /\ ctl = [g \in GSet |-> Ctl0(g)]
   /\ accepted = [g \in GSet |-> Never]
